@@ -246,9 +246,9 @@ fn main() {
     } else {
         let total = N_KEYV * PER_KEY;
         let mut r = Rng::new(seed);
-        // quick: a seeded 1-in-24 sample of the exhaustive space (about 3000 layouts); thorough: all of it
+        // quick: a seeded 1-in-8 sample of the exhaustive space (about 8900 layouts); thorough: all of it
         for idx in 0..total {
-            if tier == "thorough" || r.chance(1, 24) { lines.push(build_case(idx, wat_built).line()); }
+            if tier == "thorough" || r.chance(1, 8) { lines.push(build_case(idx, wat_built).line()); }
         }
     }
     let base = std::env::temp_dir().join(format!("wacv-c18-{}-{}", std::process::id(), seed));
